@@ -19,12 +19,14 @@ def run(ctx):
 
 def long_chain(ctx, binary, bits):
     """a chain longer than the 2000-entry header index window, with restarts around the window boundary
-    (thorough tier only)"""
-    if not ctx.thorough:
-        return
-    n = 2100
-    restarts = [1990, 2005, 2050]
-    tp = lq.trace_run(ctx, binary, "c40-long", ntraces=1, mode="long", longn=n, restarts=restarts)
+    (thorough: every block observed; quick: bulk build, restart, last blocks observed)"""
+    if ctx.thorough:
+        n, restarts, mode = 2100, [1990, 2005, 2050], "long"
+    else:
+        # quick: 2002 empty blocks committed in bulk, then restart at 2003 and three more observed blocks: after the
+        # restart the header index cache holds exactly the last 2000 heights and older ones must come from the store
+        n, restarts, mode = 2006, [2003], "window"
+    tp = lq.trace_run(ctx, binary, "c40-long", ntraces=1, mode=mode, longn=n, restarts=restarts)
     if not tp:
         return
     # every event of the long run: the (sampled) query views must name the committed chain.  Block ids are the sequences
@@ -33,6 +35,9 @@ def long_chain(ctx, binary, bits):
     ev = vf.read_ndjson(tp)
     names, nchk = [], 0
     for k, e in enumerate(ev[1:], 1):
+        if e["event"] == "Bulk":
+            names.extend(e["names"])
+            continue
         if e["event"] == "Submit" and e["res"] == "ok":
             names.append(e["shape"]["name"])
         bad = None
@@ -54,12 +59,16 @@ def long_chain(ctx, binary, bits):
             ctx.violation("long-chain:%s:%s" % (e["event"], bad[0]), {"event_index": k, "height": e.get("cur"), "detail": bad[1]},
                           {"long_chain": {"n": n, "restarts": restarts}, "upto_event": k})
             break
-    prefix = os.path.join(ctx.scratch, "trace-c40-long-prefix.ndjson")
-    with open(tp) as f, open(prefix, "w") as g:
-        for i, line in enumerate(f):
-            if i < 260:
-                g.write(line)
-    v = lq.trace_check(ctx, prefix, "C40-long", timeout=1500)
+    v = {"matched": 0}
+    if mode == "long":
+        prefix = os.path.join(ctx.scratch, "trace-c40-long-prefix.ndjson")
+        with open(tp) as f, open(prefix, "w") as g:
+            for i, line in enumerate(f):
+                if i < 260:
+                    g.write(line)
+        v = lq.trace_check(ctx, prefix, "C40-long", timeout=1500)
+    if nchk < 10 or len(names) < 2001:
+        ctx.infra("long chain run is vacuous: %d blocks, %d views" % (len(names), nchk))
     ctx.extra["long_chain_blocks"] = len(names)
     ctx.extra["long_chain_views_checked"] = nchk
     ctx.extra["long_chain_events_validated_by_tlc"] = v["matched"]
